@@ -21,6 +21,7 @@ import (
 	"time"
 
 	"github.com/synnaxlabs/x/confluence"
+	"github.com/synnaxlabs/x/errors"
 	xcontrol "github.com/synnaxlabs/x/control"
 	"github.com/synnaxlabs/x/signal"
 	"github.com/synnaxlabs/x/telem"
@@ -36,6 +37,39 @@ type c20Writer struct {
 	Mode   int       `json:"mode"` // 1 persist+stream, 2 persist only, 3 stream only
 	Auth   int       `json:"auth"`
 	Frames [][]int64 `json:"frames"` // timestamps per write
+	PaceNS int64     `json:"pace_ns,omitempty"` // virtual time slept after each write (0 = back to back)
+	// NoAuto: auto-commit off; the writer commits once, after its last write
+	NoAuto bool `json:"no_auto,omitempty"`
+}
+
+// c20VStep is one step of a writer on the virtual channels: a write of one sample per
+// channel, or a change of the writer's authority.
+type c20VStep struct {
+	K    string `json:"k"` // write, auth
+	Auth int    `json:"auth,omitempty"`
+}
+
+// c20VWriter writes the case's virtual channels (nothing persisted, so control may move
+// between writers at any moment): it opens after OpenAfterNS of virtual time, runs its
+// steps PaceNS apart and closes.
+type c20VWriter struct {
+	ID          int        `json:"id"`
+	Auth        int        `json:"auth"`
+	OpenAfterNS int64      `json:"open_after_ns,omitempty"`
+	PaceNS      int64      `json:"pace_ns,omitempty"`
+	Steps       []c20VStep `json:"steps"`
+}
+
+// c20Interloper opens a writer with a higher authority on a group's channels while the
+// group's writer is writing, writes nothing, holds control for HoldNS of virtual time
+// and closes: the group's writer loses control mid-stream and regains it.
+type c20Interloper struct {
+	ID          int      `json:"id"`
+	Chans       []uint32 `json:"chans"`
+	Start       int64    `json:"start"`
+	Auth        int      `json:"auth"`
+	OpenAfterNS int64    `json:"open_after_ns"`
+	HoldNS      int64    `json:"hold_ns"`
 }
 
 type c20SOp struct {
@@ -55,6 +89,9 @@ type c20Case struct {
 	Schema    vSchema       `json:"schema"`
 	Writers   []c20Writer   `json:"writers"`
 	Streamers []c20Streamer `json:"streamers"`
+	Virtual   []uint32      `json:"virtual,omitempty"` // keys of virtual channels
+	VWriters  []c20VWriter  `json:"vwriters,omitempty"`
+	Interlopers []c20Interloper `json:"interlopers,omitempty"`
 	CloseDB   bool          `json:"close_db,omitempty"`
 	Sched     sim.Config    `json:"sched"`
 	Seed      uint64        `json:"seed"`
@@ -110,7 +147,54 @@ func genC20(t *rapid.T) c20Case {
 				}
 				w.Frames = append(w.Frames, ts)
 			}
+			if n == 1 && rapid.IntRange(0, 2).Draw(t, "noauto") == 0 {
+				w.NoAuto = true
+			}
+			if rapid.IntRange(0, 2).Draw(t, "paced") == 0 {
+				// a paced writer spreads its writes over virtual time, so controllers'
+				// re-subscriptions and consumers' sleeps fall between its writes
+				w.PaceNS = int64(rapid.IntRange(1, 4).Draw(t, "pacems")) * int64(time.Millisecond)
+			}
 			c.Writers = append(c.Writers, w)
+			wid++
+		}
+	}
+	for gi, g := range groups {
+		// an interloper only where one paced writer owns the group (two contending
+		// writers already share the group's domain writer)
+		var own []c20Writer
+		for _, w := range c.Writers {
+			if w.Chans[0] == g.idx {
+				own = append(own, w)
+			}
+		}
+		if len(own) != 1 || own[0].PaceNS == 0 || own[0].Auth >= 255 || rapid.IntRange(0, 1).Draw(t, "interloper") != 0 {
+			continue
+		}
+		c.Interlopers = append(c.Interlopers, c20Interloper{ID: wid, Chans: own[0].Chans, Start: int64(1+gi*4)*vSlot + 900, Auth: 255,
+			OpenAfterNS: int64(rapid.IntRange(0, 8).Draw(t, "iopen")) * int64(time.Millisecond),
+			HoldNS:      int64(rapid.IntRange(1, 6).Draw(t, "ihold")) * int64(time.Millisecond)})
+		wid++
+	}
+	if rapid.IntRange(0, 2).Draw(t, "virtual") == 0 {
+		// virtual channels with writers whose control relation changes while they write
+		for k := rapid.IntRange(1, 2).Draw(t, "nvirt"); k > 0; k-- {
+			key := uint32(200 + k)
+			c.Virtual = append(c.Virtual, key)
+			allKeys = append(allKeys, key)
+		}
+		for k := rapid.IntRange(1, 3).Draw(t, "nvw"); k > 0; k-- {
+			vw := c20VWriter{ID: wid, Auth: rapid.SampledFrom([]int{1, 2, 3, 255}).Draw(t, "vauth"),
+				OpenAfterNS: int64(rapid.IntRange(0, 6).Draw(t, "vopen")) * int64(time.Millisecond),
+				PaceNS:      int64(rapid.IntRange(0, 3).Draw(t, "vpace")) * int64(time.Millisecond)}
+			for j := rapid.IntRange(1, 6).Draw(t, "vsteps"); j > 0; j-- {
+				if rapid.IntRange(0, 4).Draw(t, "vk") == 0 {
+					vw.Steps = append(vw.Steps, c20VStep{K: "auth", Auth: rapid.SampledFrom([]int{0, 1, 2, 3, 255}).Draw(t, "vnew")})
+				} else {
+					vw.Steps = append(vw.Steps, c20VStep{K: "write"})
+				}
+			}
+			c.VWriters = append(c.VWriters, vw)
 			wid++
 		}
 	}
@@ -154,6 +238,7 @@ type c20Write struct {
 	authorized bool
 	err        bool
 	stream     bool
+	virtual    bool
 }
 
 type c20Recv struct {
@@ -163,7 +248,27 @@ type c20Recv struct {
 	writeOf  map[uint32][2]int // key -> (writer, n)
 }
 
+// c20Ctl is a change of the control relation on the virtual channels: a writer opened
+// (auth = its authority), changed its authority, or closed (auth = -1).
+type c20Ctl struct {
+	chans     []uint32
+	writer    int
+	kind      string
+	auth      int
+	call, ret int64
+}
+
+type c20Commit struct {
+	end       int64
+	failed    bool
+	call, ret int64
+}
+
 type c20State struct {
+	commits  map[int]c20Commit
+	probeErr []string
+	probeOK  int
+	ctl    []c20Ctl
 	mu     sync.Mutex
 	seq    int64
 	writes []*c20Write
@@ -179,9 +284,26 @@ type c20State struct {
 	closes map[int][2]int64
 }
 
+func fmtGates[G any](m map[int]*G) string {
+	ids := make([]int, 0, len(m))
+	for id := range m {
+		ids = append(ids, id)
+	}
+	sort.Ints(ids)
+	var b strings.Builder
+	for _, id := range ids {
+		fmt.Fprintf(&b, "w%d:%+v ", id, *m[id])
+	}
+	return b.String()
+}
+
 type c20Sub struct {
 	at   int64
 	keys map[uint32]bool
+	// eff: stamp from which the subscription is certainly in force (the request was
+	// sent, the consumer is always ready, and the whole system has quiesced once since,
+	// in a run without stall quanta); 0 = unknown
+	eff int64
 }
 
 func (s *c20State) stamp() int64 {
@@ -201,7 +323,7 @@ func keySet(ks []uint32) map[uint32]bool {
 
 func runC20(t *testing.T, c c20Case, st *drv.Stats) (fail *drv.Failure) {
 	vDeterminize(c.Seed)
-	s := &c20State{closes: map[int][2]int64{}, subs: map[int][]c20Sub{}, closed: map[int]int64{}, val: map[uint32]map[string][2]int{}, vseq: map[uint32]int{}}
+	s := &c20State{commits: map[int]c20Commit{}, closes: map[int][2]int64{}, subs: map[int][]c20Sub{}, closed: map[int]int64{}, val: map[uint32]map[string][2]int{}, vseq: map[uint32]int{}}
 	chans := map[uint32]vChan{}
 	for _, ch := range c.Schema.Chans {
 		chans[ch.Key] = ch
@@ -231,12 +353,19 @@ func runC20(t *testing.T, c c20Case, st *drv.Stats) (fail *drv.Failure) {
 				fail = drv.Failf("unexpected-error", "create:"+errSig(err), "create channels: %v", err)
 				return
 			}
+			for _, k := range c.Virtual {
+				if err := r.db.CreateChannel(r.ctx, Channel{Key: ChannelKey(k), Name: "virt" + strconv.Itoa(int(k)), DataType: telem.Int64T, Virtual: true}); err != nil {
+					fail = drv.Failf("unexpected-error", "create-virtual:"+errSig(err), "create virtual channel %d: %v", k, err)
+					return
+				}
+				chans[k] = vChan{Key: k, DT: "int64"}
+			}
 			// phase A (sequential): open writers in id order (so open order is known) and
 			// streamers; let the relay register every connection
 			writers := map[int]*Writer{}
 			for _, w := range c.Writers {
 				cw, err := r.db.OpenWriter(r.ctx, WriterConfig{Start: telem.TimeStamp(w.Start), Channels: w.Chans, Sync: new(true),
-					Mode: WriterMode(w.Mode), Authorities: []xcontrol.Authority{xcontrol.Authority(w.Auth)},
+					Mode: WriterMode(w.Mode), Authorities: []xcontrol.Authority{xcontrol.Authority(w.Auth)}, EnableAutoCommit: new(!w.NoAuto),
 					ControlSubject: xcontrol.Subject{Key: "w" + strconv.Itoa(w.ID)}, AutoIndexPersistInterval: AlwaysIndexPersistOnAutoCommit})
 				if err != nil {
 					fail = drv.Failf("unexpected-error", "open:"+errSig(err), "open writer %d: %v", w.ID, err)
@@ -272,6 +401,12 @@ func runC20(t *testing.T, c c20Case, st *drv.Stats) (fail *drv.Failure) {
 					fmt.Println("DEBUG TRACE\n" + strings.Join(sc.Trace, "\n"))
 					for _, w := range s.writes {
 						fmt.Printf("DEBUG write w%d #%d ts=%v call=%d ret=%d auth=%v\n", w.writer, w.n, w.ts, w.call, w.ret, w.authorized)
+					}
+					for id, cm := range s.commits {
+						fmt.Printf("DEBUG commit w%d %+v\n", id, cm)
+					}
+					for _, e := range s.ctl {
+						fmt.Printf("DEBUG ctl %+v\n", e)
 					}
 					for _, rc := range s.recvs {
 						fmt.Printf("DEBUG recv s%d at=%d %v\n", rc.streamer, rc.at, rc.writeOf)
@@ -332,6 +467,24 @@ func runC20(t *testing.T, c c20Case, st *drv.Stats) (fail *drv.Failure) {
 							s.mu.Unlock()
 							return nil
 						}
+						if w.PaceNS > 0 {
+							time.Sleep(time.Duration(w.PaceNS))
+						}
+					}
+					if w.NoAuto {
+						sim.Yield(sim.ClassTask, "writer"+strconv.Itoa(w.ID)+" commit")
+						cmc := s.stamp()
+						end, err := cw.Commit()
+						cmr := s.stamp()
+						s.mu.Lock()
+						s.commits[w.ID] = c20Commit{end: int64(end), failed: err != nil, call: cmc, ret: cmr}
+						s.mu.Unlock()
+						if err != nil && !c.CloseDB && !errors.Is(err, xcontrol.ErrUnauthorized) {
+							s.mu.Lock()
+							s.fails = append(s.fails, drv.Failf("unexpected-error", "commit:"+errSig(err), "writer %d commit: %v", w.ID, err))
+							s.mu.Unlock()
+							return nil
+						}
 					}
 					sim.Yield(sim.ClassTask, "writer"+strconv.Itoa(w.ID)+" close")
 					cc := s.stamp()
@@ -344,6 +497,136 @@ func runC20(t *testing.T, c c20Case, st *drv.Stats) (fail *drv.Failure) {
 						s.mu.Lock()
 						s.fails = append(s.fails, drv.Failf("unexpected-error", "wclose:"+errSig(err), "writer %d close: %v", w.ID, err))
 						s.mu.Unlock()
+					}
+					return nil
+				})
+			}
+			for _, il := range c.Interlopers {
+				il := il
+				phaseB.Add(1)
+				tasks.Go("interloper"+strconv.Itoa(il.ID), func() error {
+					defer phaseB.Done()
+					if il.OpenAfterNS > 0 {
+						time.Sleep(time.Duration(il.OpenAfterNS))
+					}
+					sim.Yield(sim.ClassTask, "interloper"+strconv.Itoa(il.ID)+" open")
+					oc := s.stamp()
+					cw, err := r.db.OpenWriter(r.ctx, WriterConfig{Start: telem.TimeStamp(il.Start), Channels: il.Chans, Sync: new(true),
+						Authorities: []xcontrol.Authority{xcontrol.Authority(il.Auth)}, ControlSubject: xcontrol.Subject{Key: "w" + strconv.Itoa(il.ID)}})
+					or := s.stamp()
+					if err != nil {
+						if !c.CloseDB {
+							s.mu.Lock()
+							s.fails = append(s.fails, drv.Failf("unexpected-error", "interloper-open:"+errSig(err), "interloper %d open: %v", il.ID, err))
+							s.mu.Unlock()
+						}
+						return nil
+					}
+					s.mu.Lock()
+					s.ctl = append(s.ctl, c20Ctl{chans: il.Chans, writer: il.ID, kind: "open", auth: il.Auth, call: oc, ret: or})
+					s.mu.Unlock()
+					time.Sleep(time.Duration(il.HoldNS))
+					sim.Yield(sim.ClassTask, "interloper"+strconv.Itoa(il.ID)+" close")
+					cc := s.stamp()
+					err = cw.Close()
+					cr := s.stamp()
+					s.mu.Lock()
+					s.ctl = append(s.ctl, c20Ctl{chans: il.Chans, writer: il.ID, kind: "close", auth: -1, call: cc, ret: cr})
+					s.closes[il.ID] = [2]int64{cc, cr}
+					s.mu.Unlock()
+					if err != nil && !c.CloseDB {
+						s.mu.Lock()
+						s.fails = append(s.fails, drv.Failf("unexpected-error", "interloper-close:"+errSig(err), "interloper %d close: %v", il.ID, err))
+						s.mu.Unlock()
+					}
+					st.Probe("interloper_took_and_released_control")
+					return nil
+				})
+			}
+			for _, vw := range c.VWriters {
+				vw := vw
+				phaseB.Add(1)
+				tasks.Go("vwriter"+strconv.Itoa(vw.ID), func() error {
+					defer phaseB.Done()
+					note := func(kind string, auth int, call, ret int64) {
+						s.mu.Lock()
+						s.ctl = append(s.ctl, c20Ctl{chans: c.Virtual, writer: vw.ID, kind: kind, auth: auth, call: call, ret: ret})
+						s.mu.Unlock()
+					}
+					bad := func(what string, err error) error {
+						if !c.CloseDB {
+							s.mu.Lock()
+							s.fails = append(s.fails, drv.Failf("unexpected-error", what+":"+errSig(err), "virtual writer %d %s: %v", vw.ID, what, err))
+							s.mu.Unlock()
+						}
+						return nil
+					}
+					if vw.OpenAfterNS > 0 {
+						time.Sleep(time.Duration(vw.OpenAfterNS))
+					}
+					sim.Yield(sim.ClassTask, "vwriter"+strconv.Itoa(vw.ID)+" open")
+					oc := s.stamp()
+					cw, err := r.db.OpenWriter(r.ctx, WriterConfig{Start: telem.TimeStamp(1), Channels: c.Virtual, Sync: new(true),
+						Mode: WriterModeStreamOnly, Authorities: []xcontrol.Authority{xcontrol.Authority(vw.Auth)},
+						ControlSubject: xcontrol.Subject{Key: "w" + strconv.Itoa(vw.ID)}})
+					or := s.stamp()
+					if err != nil {
+						return bad("open", err)
+					}
+					note("open", vw.Auth, oc, or)
+					n := 0
+					for _, step := range vw.Steps {
+						sim.Yield(sim.ClassTask, "vwriter"+strconv.Itoa(vw.ID)+" "+step.K)
+						if step.K == "auth" {
+							ac := s.stamp()
+							err := cw.SetAuthority(WriterConfig{Authorities: []xcontrol.Authority{xcontrol.Authority(step.Auth)}})
+							ar := s.stamp()
+							if err != nil {
+								return bad("set-authority", err)
+							}
+							note("auth", step.Auth, ac, ar)
+						} else {
+							keys := make([]ChannelKey, 0, len(c.Virtual))
+							series := make([]telem.Series, 0, len(c.Virtual))
+							s.mu.Lock()
+							for _, k := range c.Virtual {
+								if s.val[k] == nil {
+									s.val[k] = map[string][2]int{}
+								}
+								v := vValue("int64", k, s.vseq[k])
+								s.vseq[k]++
+								s.val[k][string(v)] = [2]int{vw.ID, n}
+								keys = append(keys, ChannelKey(k))
+								series = append(series, vSeries("int64", [][]byte{v}))
+							}
+							s.mu.Unlock()
+							wr := &c20Write{writer: vw.ID, n: n, keys: c.Virtual, stream: true, virtual: true}
+							wr.call = s.stamp()
+							auth, err := cw.Write(telem.MultiFrame(keys, series))
+							wr.ret = s.stamp()
+							wr.authorized, wr.err = auth && err == nil, err != nil
+							s.mu.Lock()
+							s.writes = append(s.writes, wr)
+							s.mu.Unlock()
+							n++
+							if err != nil {
+								return bad("write", err)
+							}
+						}
+						if vw.PaceNS > 0 {
+							time.Sleep(time.Duration(vw.PaceNS))
+						}
+					}
+					sim.Yield(sim.ClassTask, "vwriter"+strconv.Itoa(vw.ID)+" close")
+					cc := s.stamp()
+					err = cw.Close()
+					cr := s.stamp()
+					note("close", -1, cc, cr)
+					s.mu.Lock()
+					s.closes[vw.ID] = [2]int64{cc, cr}
+					s.mu.Unlock()
+					if err != nil {
+						return bad("close", err)
 					}
 					return nil
 				})
@@ -398,6 +681,17 @@ func runC20(t *testing.T, c c20Case, st *drv.Stats) (fail *drv.Failure) {
 								s.subs[sp.ID] = append(s.subs[sp.ID], c20Sub{at: at, keys: keySet(op.Keys)})
 								s.mu.Unlock()
 								ls.in.Inlet() <- StreamerRequest{Channels: op.Keys}
+								if sp.SleepNS == 0 && c.Sched.StallInv == 0 {
+									// virtual time only advances once every goroutine is
+									// blocked on something real, so the streamer has taken
+									// the request by the time this sleep returns
+									idx := len(s.subs[sp.ID]) - 1
+									time.Sleep(time.Millisecond)
+									e := s.stamp()
+									s.mu.Lock()
+									s.subs[sp.ID][idx].eff = e
+									s.mu.Unlock()
+								}
 							case "close":
 								s.mu.Lock()
 								s.closed[sp.ID] = s.seq
@@ -444,6 +738,9 @@ func runC20(t *testing.T, c c20Case, st *drv.Stats) (fail *drv.Failure) {
 				nframes := 0
 				for _, w := range c.Writers {
 					nframes += len(w.Frames)
+				}
+				for _, vw := range c.VWriters {
+					nframes += len(vw.Steps)
 				}
 				flush := time.Duration(nframes*len(c.Streamers))*25*time.Millisecond + time.Second
 				for _, sp := range c.Streamers {
@@ -509,6 +806,64 @@ func runC20(t *testing.T, c c20Case, st *drv.Stats) (fail *drv.Failure) {
 						finalContent[ch.Key] = append(finalContent[ch.Key], string(v))
 					}
 				}
+				// unauthorized writes have no effect: right after the last authorized
+				// sample of a group the time axis is still free, whatever was refused
+				for _, w0 := range c.Writers {
+					if w0.Mode == 3 {
+						continue
+					}
+					last, refusedLater := int64(-1), false
+					s.mu.Lock()
+					for _, w := range s.writes {
+						if w.writer != w0.ID || len(w.ts) == 0 {
+							continue
+						}
+						if w.authorized && w.ts[len(w.ts)-1] > last {
+							last = w.ts[len(w.ts)-1]
+						}
+					}
+					for _, w := range s.writes {
+						if w.writer == w0.ID && len(w.ts) > 0 && !w.authorized && w.ts[0] > last {
+							refusedLater = true
+						}
+					}
+					s.mu.Unlock()
+					if last < 0 || !refusedLater {
+						continue
+					}
+					// only the group's own writer wrote to it, so the probe abuts its data
+					shared := false
+					for _, w1 := range c.Writers {
+						if w1.ID != w0.ID && w1.Chans[0] == w0.Chans[0] {
+							shared = true
+						}
+					}
+					if shared {
+						continue
+					}
+					err := func() error {
+						pw, err := r.db.OpenWriter(r.ctx, WriterConfig{Start: telem.TimeStamp(last + 1), Channels: []ChannelKey{ChannelKey(w0.Chans[0])}, Sync: new(true),
+							ControlSubject: xcontrol.Subject{Key: "probe" + strconv.Itoa(w0.ID)}})
+						if err != nil {
+							return err
+						}
+						_, err = pw.Write(telem.MultiFrame([]ChannelKey{ChannelKey(w0.Chans[0])}, []telem.Series{vTSSeries([]int64{last + 1})}))
+						if err == nil {
+							_, err = pw.Commit()
+						}
+						if cerr := pw.Close(); err == nil {
+							err = cerr
+						}
+						return err
+					}()
+					s.mu.Lock()
+					if err != nil {
+						s.probeErr = append(s.probeErr, fmt.Sprintf("writer %d's index channel %d: a write at %d, right after its last authorized sample %d, is refused although everything later was reported unauthorized: %v", w0.ID, w0.Chans[0], last+1, last, err))
+					} else {
+						s.probeOK++
+					}
+					s.mu.Unlock()
+				}
 				if err := r.db.Close(); err != nil {
 					fail = drv.Failf("unexpected-error", "dbclose:"+errSig(err), "db close: %v", err)
 					return
@@ -534,12 +889,21 @@ func runC20(t *testing.T, c c20Case, st *drv.Stats) (fail *drv.Failure) {
 		wmap[[2]int{w.writer, w.n}] = w
 	}
 	mode := map[int]int{}
+	for _, vw := range c.VWriters {
+		mode[vw.ID] = 3
+	}
 	for _, w := range c.Writers {
 		mode[w.ID] = w.Mode
 	}
 	chansOfWriter := map[int][]uint32{}
 	for _, w := range c.Writers {
 		chansOfWriter[w.ID] = w.Chans
+	}
+	for _, vw := range c.VWriters {
+		chansOfWriter[vw.ID] = c.Virtual
+	}
+	for _, il := range c.Interlopers {
+		chansOfWriter[il.ID] = il.Chans
 	}
 	duringHandoff := func(w *c20Write) bool {
 		for other, iv := range s.closes {
@@ -555,6 +919,19 @@ func runC20(t *testing.T, c c20Case, st *drv.Stats) (fail *drv.Failure) {
 				}
 			}
 			if shares && w.call <= iv[1] && iv[0] <= w.ret {
+				return true
+			}
+		}
+		// on the virtual channels control also moves when another writer opens or
+		// changes its authority (channel by channel, like a close)
+		for _, e := range s.ctl {
+			shares := false
+			for _, a := range e.chans {
+				for _, b := range w.keys {
+					shares = shares || a == b
+				}
+			}
+			if shares && e.writer != w.writer && w.call <= e.ret && e.call <= w.ret {
 				return true
 			}
 		}
@@ -586,6 +963,30 @@ func runC20(t *testing.T, c c20Case, st *drv.Stats) (fail *drv.Failure) {
 			if !okKey {
 				return drv.Failf("stream-filter", dtClass(chansOf(c.Schema)[k]), "streamer %d received a series for channel %d which it never subscribed to up to that moment (subscriptions: %v)", rc.streamer, k, s.subs[rc.streamer])
 			}
+			// currently subscribed channels only: a write that began after a
+			// re-subscription was certainly in force is filtered by that subscription
+			// or a later one
+			if w := wmap[x]; w != nil {
+				subs := s.subs[rc.streamer]
+				from := -1
+				for si, sub := range subs {
+					if sub.eff != 0 && sub.eff < w.call {
+						from = si
+					}
+				}
+				if from >= 0 {
+					cur := false
+					for _, sub := range subs[from:] {
+						if sub.at <= rc.at && sub.keys[k] {
+							cur = true
+						}
+					}
+					if !cur {
+						return drv.Failf("stream-filter", "stale-subscription:"+dtClass(chansOf(c.Schema)[k]), "streamer %d received channel %d from a write that began (stamp %d) after its re-subscription to %v was in force (stamp %d); later subscriptions do not contain the channel either", rc.streamer, k, w.call, subs[from].keys, subs[from].eff)
+					}
+					st.Probe("resubscription_in_force_checked")
+				}
+			}
 		}
 		if wn == nil {
 			continue
@@ -606,9 +1007,9 @@ func runC20(t *testing.T, c c20Case, st *drv.Stats) (fail *drv.Failure) {
 					got++
 				}
 			}
-			if got < len(w.keys) && duringHandoff(w) {
+			if duringHandoff(w) {
 				st.Probe("partial_authorization_during_handoff")
-				return drv.Failf("stream-unauthorized", "partial-authorization-during-handoff", "streamer %d received %d of the %d channels of write %d of writer %d, which was reported unauthorized; the write overlapped the close of the previous controller", rc.streamer, got, len(w.keys), w.n, w.writer)
+				return drv.Failf("stream-unauthorized", "partial-authorization-during-handoff", "streamer %d received %d of the %d channels of write %d of writer %d, which was reported unauthorized; the write overlapped a change of control by another writer (close, open or authority change)", rc.streamer, got, len(w.keys), w.n, w.writer)
 			}
 			return drv.Failf("stream-unauthorized", "relayed-unauthorized-write", "streamer %d received write %d of writer %d, which was reported unauthorized", rc.streamer, w.n, w.writer)
 		}
@@ -653,7 +1054,83 @@ func runC20(t *testing.T, c c20Case, st *drv.Stats) (fail *drv.Failure) {
 	}
 	// C05 write path: what was persisted is exactly what was reported authorized
 	if !c.CloseDB {
+		// writers without auto-commit persist what they were authorized to write only
+		// through their final commit: judged when that commit succeeded away from any
+		// change of control, and its reported end must not lie beyond the last
+		// authorized sample
+		skipChan := map[uint32]bool{}
+		for _, w0 := range c.Writers {
+			if !w0.NoAuto {
+				continue
+			}
+			cm, ok := s.commits[w0.ID]
+			probe := &c20Write{writer: w0.ID, keys: w0.Chans, call: cm.call, ret: cm.ret}
+			// Writer.Commit does not say whether the commit was authorized; an end of 0
+			// means it was not (or there was nothing to commit)
+			if !ok || cm.failed || cm.end == 0 || duringHandoff(probe) {
+				for _, k := range w0.Chans {
+					skipChan[k] = true
+				}
+				st.Probe("manual_commit_unjudged")
+				continue
+			}
+			last := int64(-1)
+			for _, w := range s.writes {
+				if w.writer == w0.ID && w.authorized && len(w.ts) > 0 && w.ts[len(w.ts)-1] > last {
+					last = w.ts[len(w.ts)-1]
+				}
+			}
+			if last >= 0 && cm.end > last+1 {
+				return drv.Failf("unauthorized-write-left-a-trace", "commit-end-beyond-last-authorized-sample", "writer %d (auto-commit off) committed up to %d but its last authorized sample is %d: the end comes from a write that was reported unauthorized", w0.ID, cm.end, last)
+			}
+			st.Probe("manual_commit_checked")
+		}
+		manual := map[uint32]int{} // channel -> id of its auto-commit-off writer
+		lastRefused := map[int]int{}
+		for _, w0 := range c.Writers {
+			if w0.NoAuto {
+				for _, k := range w0.Chans {
+					manual[k] = w0.ID
+				}
+				lastRefused[w0.ID] = -1
+			}
+		}
+		for _, w := range s.writes {
+			if _, ok := lastRefused[w.writer]; ok && !w.authorized && w.n > lastRefused[w.writer] {
+				lastRefused[w.writer] = w.n
+			}
+		}
 		for _, ch := range c.Schema.Chans {
+			if skipChan[ch.Key] {
+				continue
+			}
+			if wid, ok := manual[ch.Key]; ok {
+				// A refused write abandons what the writer had accepted but not yet
+				// committed (idxWriter resets its pending state so that no stale range is
+				// committed after a transfer). So with auto-commit off: everything stored
+				// comes from an authorized write, and every authorized write after the
+				// last refused one is stored by the final commit.
+				have := map[string]bool{}
+				for _, v := range finalContent[ch.Key] {
+					have[v] = true
+					w := wmap[s.val[ch.Key][v]]
+					if w != nil && !w.authorized && duringHandoff(w) {
+						st.Probe("partial_authorization_during_handoff")
+						return drv.Failf("persisted-vs-authorized", "partial-authorization-during-handoff:"+dtClass(ch), "channel %d holds samples of a write that was reported unauthorized; the write overlapped a change of control by another writer (per-channel handoff)", ch.Key)
+					}
+					if w == nil || !w.authorized {
+						return drv.Failf("persisted-vs-authorized", "manual-commit:stored-unauthorized:"+dtClass(ch), "channel %d stores a value of a write that was reported unauthorized (writer %d, auto-commit off)", ch.Key, wid)
+					}
+				}
+				for v, wn := range s.val[ch.Key] {
+					w := wmap[wn]
+					if w != nil && w.authorized && w.writer == wid && w.n > lastRefused[wid] && mode[wid] != 3 && !have[v] {
+						return drv.Failf("persisted-vs-authorized", "manual-commit:authorized-write-missing:"+dtClass(ch), "channel %d lacks write %d of writer %d (auto-commit off), which was authorized, came after its last refused write %d and was followed by a successful commit", ch.Key, w.n, wid, lastRefused[wid])
+					}
+				}
+				st.Probe("manual_commit_content_checked")
+				continue
+			}
 			var want []string
 			type wv struct {
 				ts int64
@@ -704,11 +1181,89 @@ func runC20(t *testing.T, c c20Case, st *drv.Stats) (fail *drv.Failure) {
 		}
 		st.Probe("persisted_equals_authorized")
 	}
+	if len(s.probeErr) > 0 {
+		return drv.Failf("unauthorized-write-left-a-trace", "time-range-after-last-authorized-sample-occupied", "%s", s.probeErr[0])
+	}
+	if s.probeOK > 0 {
+		st.ProbeN("refused_tail_leaves_time_axis_free", s.probeOK)
+	}
+	// control on the virtual channels (write-path clause of C05): a write whose whole
+	// duration lies between two changes of the control relation is authorized iff its
+	// writer holds the highest authority among the gates open throughout it
+	for _, w := range s.writes {
+		if !w.virtual || w.err {
+			continue
+		}
+		type gate struct {
+			auth   int
+			opened int64
+		}
+		gates := map[int]*gate{}
+		ambiguous := false
+		var evs []c20Ctl
+		for _, e := range s.ctl {
+			if len(e.chans) > 0 && len(c.Virtual) > 0 && e.chans[0] == c.Virtual[0] {
+				evs = append(evs, e)
+			}
+		}
+		sort.Slice(evs, func(i, j int) bool { return evs[i].ret < evs[j].ret })
+		for _, e := range evs {
+			switch {
+			case e.ret < w.call:
+				switch e.kind {
+				case "open":
+					gates[e.writer] = &gate{auth: e.auth, opened: e.ret}
+				case "auth":
+					if g := gates[e.writer]; g != nil {
+						g.auth = e.auth
+					}
+				case "close":
+					delete(gates, e.writer)
+				}
+			case e.call > w.ret:
+			default:
+				ambiguous = true
+			}
+		}
+		if ambiguous || gates[w.writer] == nil {
+			st.Probe("virtual_write_during_control_change_unjudged")
+			continue
+		}
+		// virtual channels are controlled in shared mode (virtual/db.go): every gate
+		// whose authority equals the highest open authority is authorized
+		ctl := -1
+		for id, g := range gates {
+			if ctl < 0 || g.auth > gates[ctl].auth || (g.auth == gates[ctl].auth && g.opened < gates[ctl].opened) {
+				ctl = id
+			}
+		}
+		want := gates[w.writer].auth == gates[ctl].auth
+		if want != w.authorized {
+			sig := "authorized-without-control"
+			if want {
+				sig = "refused-while-in-control"
+			}
+			return drv.Failf("write-vs-control-model", sig, "virtual writer %d write %d (stamps %d-%d) was reported authorized=%v, but with the gates open throughout it %v the highest authority is writer %d's (shared control: authorized iff equal to it)", w.writer, w.n, w.call, w.ret, w.authorized, fmtGates(gates), ctl)
+		}
+		st.Probe("virtual_write_vs_control_model_checked")
+		if !want {
+			st.Probe("virtual_write_after_losing_control")
+		}
+	}
 	// liveness in virtual time: idle time is bounded by the slow-consumer budget
 	frames := len(s.writes)
 	budget := 2*time.Duration(frames*len(c.Streamers))*25*time.Millisecond + 7*time.Second
 	for _, sp := range c.Streamers {
 		budget += 2 * time.Duration(sp.SleepNS) * time.Duration(frames+1)
+	}
+	for _, w := range c.Writers {
+		budget += time.Duration(w.PaceNS) * time.Duration(len(w.Frames)+1)
+	}
+	for _, vw := range c.VWriters {
+		budget += time.Duration(vw.OpenAfterNS) + time.Duration(vw.PaceNS)*time.Duration(len(vw.Steps)+1)
+	}
+	for _, il := range c.Interlopers {
+		budget += time.Duration(il.OpenAfterNS + il.HoldNS)
 	}
 	if idle > budget {
 		return drv.Failf("stream-liveness", "virtual-time-budget", "the run needed %v of virtual idle time, more than the slow-consumer budget %v for %d frames and %d streamers", idle, budget, frames, len(c.Streamers))
